@@ -167,6 +167,14 @@ def make_tamper(alter, plan, state: dict):
                 return rpce.build_response(stub + b"\x00" * pad, ctx_id=pdu["ctx_id"], call_id=pdu["call_id"],
                                            auth={"type": a["type"], "level": 1, "pad": pad, "ctx": a["ctx"], "value": a["value"]})
             raise ValueError(mode)
+        if kind == "fragment":
+            # the adversary clears PFC_LAST_FRAG on the authentic sealed reply and appends a cleartext "continuation" fragment
+            b = bytearray(data)
+            b[3] &= ~rpce.PFC_LAST & 0xFF
+            cont = bytearray(adv_response(conn, pdu))
+            cont[3] = rpce.PFC_LAST if alter[2] == "last-only" else (rpce.PFC_FIRST | rpce.PFC_LAST)
+            state["applied"] = True
+            return bytes(b) + bytes(cont)
         if kind == "subst":
             a = pdu["auth"]
             b = bytearray(data)
@@ -186,8 +194,187 @@ def make_tamper(alter, plan, state: dict):
     return tamper
 
 
+def run_two_requests(case) -> dict:
+    """["tworeq", ctxname, flavour, bit]: the raw RPC client issues two GetKey requests on ONE authenticated connection.  The
+    reply to the first is altered (bit flip in the sealed body: must be rejected); the reply to the second is replaced by the
+    adversary's cleartext Response.  The second request must still go out sealed and the forged reply must be rejected."""
+    import random as _r
+
+    import dpapi_ng._client as dclient
+    import dpapi_ng._rpc as rpc
+    from dpapi_ng._gkdi import GetKey
+
+    _, ctxname, fl, bit = case
+    ctx, hs = CTXS[ctxname]
+    world = W.World(bit)
+    world.clock.set_filetime(FT)
+    record: list = []
+    if ctx["kind"] == "stub":
+        acc, cf, creds, ap = drive.stub_acceptor_factory(ctx), drive.stub_ctx_factory(ctx, record), {}, "negotiate"
+    else:
+        P.ensure_ntlm_env()
+        from simworld import secctx
+
+        acc = lambda at: secctx.NtlmAcceptor("ntlm" if at == 0x0A else "negotiate")  # noqa: E731
+        cf, ap = None, ("ntlm" if ctx["kind"] == "ntlm" else "negotiate")
+        creds = {"username": f"{P.NTLM_DOMAIN}\\{P.NTLM_USER}", "password": P.NTLM_PASS}
+    rkspec = RKS["p256"]
+    rk = offline.synth_root_key(*rkspec)
+    dc = refdc.RefDC(world, [rk], host=offline.DC, caller_sids={SID}, acceptor_factory=acc, rpc_knobs={"header_sign": hs})
+    sd = dtyp.target_sd(SID)
+    plan = {"root_keys": [rkspec], "ops": [{"op": "unprotect", "blob": {"pos": BLOB_POS}}]}
+    state = {"n": 0}
+    alter = ["strip", "seed"]
+
+    def adv_bytes(conn):
+        adv_world = W.World(0)
+        adv_world.clock = world.clock
+        adv = refdc.RefDC(adv_world, [adv_root_key(rkspec)], caller_sids={SID})
+        hr, env = adv.answer(sd, None, *BLOB_POS, {})
+        state["adv_env"] = env
+        return rpce.build_response(rpce.ndr64_getkey_response(env, hr))
+
+    def tamper(conn, idx, data):
+        if len(data) < 24 or data[2] != rpce.RESPONSE:
+            return None
+        state["n"] += 1
+        if state["n"] == 1:
+            b = bytearray(data)
+            off = 24 * 8 + bit % max(8, (len(data) - 24 - 8 - 16) * 8)
+            b[off // 8] ^= 0x80 >> (off % 8)
+            return bytes(b)
+        state["forged_second"] = True
+        return adv_bytes(conn)
+
+    world.tampers = type("T", (dict,), {"get": lambda self, k, d=None: tamper})()
+    gk = GetKey(sd, rk.root_key_id, *BLOB_POS)
+    res = {"first": None, "second": None}
+
+    def sync_work():
+        with rpc.create_rpc_connection(offline.DC, dc.gkdi_port, auth_protocol=ap, **creds) as c:
+            c.bind(dclient._ISD_KEY_CONTEXTS)
+            try:
+                res["first"] = ("ok", c.request(0, 0, gk.pack(), verification_trailer=dclient._VERIFICATION_TRAILER))
+            except Exception as e:  # noqa: BLE001
+                res["first"] = ("raise", e)
+            return c.request(0, 0, gk.pack(), verification_trailer=dclient._VERIFICATION_TRAILER)
+
+    async def async_work():
+        c = await rpc.async_create_rpc_connection(offline.DC, dc.gkdi_port, auth_protocol=ap, **creds)
+        async with c:
+            await c.bind(dclient._ISD_KEY_CONTEXTS)
+            try:
+                res["first"] = ("ok", await c.request(0, 0, gk.pack(), verification_trailer=dclient._VERIFICATION_TRAILER))
+            except Exception as e:  # noqa: BLE001
+                res["first"] = ("raise", e)
+            return await c.request(0, 0, gk.pack(), verification_trailer=dclient._VERIFICATION_TRAILER)
+
+    with world.installed(ctx_factory=cf):
+        out = drive.classify(sync_work) if fl == "sync" else drive.classify(lambda: drive.run_async(world, async_work, _r.Random(bit)))
+    viol = None
+    probes = {"alter_tworeq": 1}
+
+    def V(cond, detail):
+        return common.violation("C16", "two-requests", fl, cond, "", "", f"{detail}; ctx={ctxname} bit={bit} first={res['first'] and res['first'][0]} outcome={out.brief()} {out.exc!r}")
+
+    reqs = [e for e in dc.gkdi_server.log if e.get("event") == "request"]
+    if res["first"] and res["first"][0] == "ok":
+        viol = V("altered-reply-accepted", "a sealed reply with a flipped body bit was returned to the caller")
+    elif len(reqs) >= 2 and not reqs[1].get("stub_padded") and reqs[1]["pdu"]["auth"] is None:
+        viol = V("second-request-in-clear", "after rejecting a reply the client sent its next request on the authenticated connection without sealing it")
+    elif out.kind == "ok":
+        v = out.value
+        pad = v.sec_trailer.pad_length if v.sec_trailer else 0
+        stub = v.stub_data[: len(v.stub_data) - pad]
+        if state.get("forged_second"):
+            viol = V("forged-reply-accepted", "the adversary's cleartext Response to the second request was returned as the stub")
+        else:
+            probes["second_authentic"] = 1
+    else:
+        probes["rejected"] = 1
+    return {"viol": viol, "digest": world.digest() + out.brief(), "key": common.key_hash(case), "fired": {"tworeq": 1}, "probes": probes,
+            "vtime_ns": world.stats.get("vtime_ns", 0)}
+
+
+def run_raw(case) -> dict:
+    """["raw", ctxname, flavour, alter]: one GetKey request through the raw RPC client (request() level): whatever the adversary
+    does, the stub returned to the caller is exactly the plaintext the DC's security context sealed, or the call raises."""
+    import random as _r
+
+    import dpapi_ng._client as dclient
+    import dpapi_ng._rpc as rpc
+    from dpapi_ng._gkdi import GetKey
+
+    _, ctxname, fl, alter = case
+    ctx, hs = CTXS[ctxname]
+    world = W.World(7)
+    world.clock.set_filetime(FT)
+    record: list = []
+    if ctx["kind"] == "stub":
+        acc, cf, creds, ap = drive.stub_acceptor_factory(ctx), drive.stub_ctx_factory(ctx, record), {}, "negotiate"
+    else:
+        P.ensure_ntlm_env()
+        from simworld import secctx
+
+        acc = lambda at: secctx.NtlmAcceptor("ntlm" if at == 0x0A else "negotiate")  # noqa: E731
+        cf, ap = None, ("ntlm" if ctx["kind"] == "ntlm" else "negotiate")
+        creds = {"username": f"{P.NTLM_DOMAIN}\\{P.NTLM_USER}", "password": P.NTLM_PASS}
+    rkspec = RKS["p256"]
+    rk = offline.synth_root_key(*rkspec)
+    dc = refdc.RefDC(world, [rk], host=offline.DC, caller_sids={SID}, acceptor_factory=acc, rpc_knobs={"header_sign": hs})
+    sd = dtyp.target_sd(SID)
+    plan = {"root_keys": [rkspec], "ops": [{"op": "unprotect", "blob": {"pos": BLOB_POS}}]}
+    state: dict = {}
+    tamper = make_tamper(alter, plan, state)
+    world.tampers = type("T", (dict,), {"get": lambda self, k, d=None: tamper})()
+    gk = GetKey(sd, rk.root_key_id, *BLOB_POS)
+
+    def sync_work():
+        with rpc.create_rpc_connection(offline.DC, dc.gkdi_port, auth_protocol=ap, **creds) as c:
+            c.bind(dclient._ISD_KEY_CONTEXTS)
+            return c.request(0, 0, gk.pack(), verification_trailer=dclient._VERIFICATION_TRAILER)
+
+    async def async_work():
+        c = await rpc.async_create_rpc_connection(offline.DC, dc.gkdi_port, auth_protocol=ap, **creds)
+        async with c:
+            await c.bind(dclient._ISD_KEY_CONTEXTS)
+            return await c.request(0, 0, gk.pack(), verification_trailer=dclient._VERIFICATION_TRAILER)
+
+    with world.installed(ctx_factory=cf):
+        out = drive.classify(sync_work) if fl == "sync" else drive.classify(lambda: drive.run_async(world, async_work, _r.Random(3)))
+    if not state.get("applied"):
+        raise common.HarnessError(f"adversary never got to act: {case} {out.brief()} {out.exc!r}")
+    viol = None
+    probes = {"alter_" + alter[0]: 1, "raw_request_level": 1}
+    if out.kind == "ok":
+        v = out.value
+        # compare the whole sealed region (stub + the DC's padding): pad_length itself sits in the security trailer, which is
+        # only protected when header signing is on, so it must not be used to cut the comparison
+        stub = bytes(v.stub_data)
+        g = dc.getkey_log[-1] if dc.getkey_log else {}
+        sealed = rpce.ndr64_getkey_response(g.get("envelope"), g.get("hresult", 0)) if g else None
+        if sealed is not None:
+            sealed = sealed + b"\xa5" * (-len(sealed) % 16)
+        if stub != sealed:
+            what = alter[0] + ("-" + str(alter[1]) if alter[0] in ("strip", "lenfix", "fragment") else "")
+            viol = common.violation("C16", what, fl, "stub-not-what-was-sealed", "request", "",
+                                    f"request() returned a stub of {len(stub)} bytes that differs from the {len(sealed or b'')} bytes the DC sealed; alteration={alter} ctx={ctxname}")
+        else:
+            probes["tolerated_authentic"] = 1
+    elif out.kind in ("raise", "blocks"):
+        probes["rejected"] = 1
+    else:
+        viol = common.violation("C16", alter[0], fl, out.kind, "request", "", f"{out.exc!r}")
+    return {"viol": viol, "digest": world.digest() + out.brief(), "key": common.key_hash(case), "fired": {alter[0]: 1}, "probes": probes,
+            "vtime_ns": world.stats.get("vtime_ns", 0)}
+
+
 def run(case) -> dict:
     """case: [ctxname, rkname, opname, flavour, alter]"""
+    if case[0] == "tworeq":
+        return run_two_requests(case)
+    if case[0] == "raw":
+        return run_raw(case)
     ctxname, rkname, opname, fl, alter = case
     base = baseline(ctxname, rkname, opname, fl)
     plan = base_plan(ctxname, rkname, opname, fl)
@@ -226,7 +413,7 @@ def run(case) -> dict:
     adv_rk = adv_root_key(plan["root_keys"][0])
 
     def V(cond, detail):
-        what = alter[0] + ("-" + str(alter[1]) if alter[0] in ("strip", "lenfix", "mitm-handshake") else "")
+        what = alter[0] + ("-" + str(alter[1]) if alter[0] in ("strip", "lenfix", "mitm-handshake", "fragment") else "")
         return common.violation("C16", what, fl, cond, opname, "",
                                 f"{detail}; alteration={alter} ctx={ctxname} op={opname} outcome={out.brief()} {out.exc!r}")
 
@@ -273,13 +460,15 @@ class C16(common.Check):
             "every single-bit flip of the authentic reply (all bits for StubCtx and NTLM in thorough; strided in quick); frag_len / auth_len / "
             "pad_length / alloc_hint / auth level / auth type rewritten to {0,1,true+-1,true+-16,0xFFFF}; sealed stub substituted; sealed reply "
             "of an earlier connection replayed; handshake man-in-the-middle (security trailers removed from bind_ack / alter_context_resp, every "
-            "later server PDU replaced by the adversary's cleartext Response). Non-trivial = every case (each alters the reply); distinct = distinct tuple.")
+            "later server PDU replaced by the adversary's cleartext Response); PFC_LAST_FRAG cleared on the sealed reply and a cleartext "
+            "continuation fragment appended; two requests on one connection through the raw client (first reply bit-flipped, second replaced by "
+            "a cleartext forgery). Non-trivial = every case (each alters the reply); distinct = distinct tuple.")
     components = {"client": "real (public API, RPC client, AuthenticationProvider)", "security context": "real pyspnego NTLM / Negotiate->NTLM (initiator and acceptor) and StubCtx (stub)",
                   "DC": "model (RefDC)", "adversary": "simulator component on the reply path, no access to the session key",
                   "transport / entropy / clock": "simulated"}
     assumptions = ["outcome-based: a correct client may reject earlier or later or tolerate a change in an unprotected field, as long as the result equals the authentic one",
                    "pyspnego NTLM signs data_readonly buffers too, so 'header signing off' is only observable with StubCtx"]
-    required_fired = ("alter_strip", "alter_flip", "alter_lenfix", "alter_subst", "alter_replay", "alter_mitm-handshake", "rejected")
+    required_fired = ("alter_strip", "alter_flip", "alter_lenfix", "alter_subst", "alter_replay", "alter_mitm-handshake", "alter_fragment", "alter_tworeq", "raw_request_level", "rejected")
 
     def exhaustive(self, tier):
         return tier == "thorough"
@@ -298,6 +487,9 @@ class C16(common.Check):
                         for mode in ("plain", "zero-sig", "level-none"):
                             out.append([ctxname, "p256", opname, fl, ["strip", kind, mode]])
                     out.append([ctxname, "p256", opname, fl, ["replay"]])
+                    for fk in ("last-only", "first-last"):
+                        out.append([ctxname, "p256", opname, fl, ["fragment", "seed", fk]])
+                        out.append([ctxname, "p256", opname, fl, ["fragment", "pub", fk]])
                     for kind in ("seed", "pub"):
                         out.append([ctxname, "p256", opname, fl, ["mitm-handshake", kind]])
                     for s in range(3):
@@ -326,6 +518,12 @@ class C16(common.Check):
                 for bit in range(nbits):
                     if bit < hdr_end or bit >= nbits - (base["pdu"]["auth_len"] + 8) * 8 or bit % stride == (seed % stride):
                         out.append([ctxname, "p256", opname, fl if bit % 2 else "async", ["flip", bit]])
+            for fl in ("sync", "async"):
+                for bit in range(0, 64 if tier == "quick" else 2000, 7):
+                    out.append(["tworeq", ctxname, fl, bit])
+                for al in (["fragment", "seed", "last-only"], ["fragment", "pub", "first-last"], ["strip", "seed", "plain"], ["strip", "seed", "zero-sig"],
+                           ["strip", "pub", "level-none"], ["subst", 1], ["lenfix", "pad_length", 3], ["lenfix", "auth_len", 8]):
+                    out.append(["raw", ctxname, fl, al])
             # a DH-sized reply as well (strip / lenfix only; flips in thorough)
             for fl in ("sync", "async"):
                 out.append([ctxname, "dh", "protect", fl, ["strip", "seed", "plain"]])
@@ -336,6 +534,8 @@ class C16(common.Check):
         return run(case)
 
     def shrink(self, case):
+        if case[0] in ("tworeq", "raw"):
+            return
         ctxname, rkname, opname, fl, alter = case
         if fl == "async":
             yield [ctxname, rkname, opname, "sync", alter]
@@ -345,6 +545,10 @@ class C16(common.Check):
             yield [ctxname, "p256", opname, fl, alter]
 
     def sample_repr(self, case, res):
+        if case[0] == "tworeq":
+            return dict(zip(("kind", "ctx", "flavour", "flipped_bit_of_first_reply"), case))
+        if case[0] == "raw":
+            return dict(zip(("kind", "ctx", "flavour", "alteration"), case))
         return {"ctx": case[0], "root_key": case[1], "op": case[2], "flavour": case[3], "alteration": case[4]}
 
 
